@@ -213,7 +213,9 @@ CHECKS = {
                 'every length 0..130, the 65530..65540 band, up to 1 MiB) is executed on the real WebsocketFrame.build/parse '
                 'and judged byte for byte by TLC against an RFC 6455 encoder/decoder written in TLA+ (WsCodec.tla); accept '
                 'tokens are recomputed by a SHA-1 state machine in TLA+ (Sha1.tla/TraceSha1.tla). Bounded-exhaustive over the '
-                'abstract space, sampled payload contents.',
+                'abstract space, sampled payload contents. Live part: the real web server with a WebSocket echo route on SimNet - '
+                'the accept token of its 101 response and the frames it sends back for masked client frames (one or several per '
+                'segment) go through the same two trace specifications.',
         'design_ref': 'DESIGN.md section 6, C16',
         'note': 'Trusted: TLC, the JSON bridge, the CommunityModules Bitwise operators. Nothing of the implementation is trusted; '
                 'SHA-1/base64 are specified in TLA+ and self-checked against the RFC 6455 example.',
